@@ -201,6 +201,36 @@ fn install_hook() {
     unsafe { setrlimit(RLIMIT_AS, &lim); }
 }
 
+/// the storage layer alone (Storage::new through the verification hook wrapper): what the model
+/// coq/theories/OpenFile.v covers; on success the length and the first record values
+#[cfg(agdb_verif)]
+fn storage_open<D: StorageData>(path: &str) -> String {
+    match agdb::verif::VStorage::<D>::new(path) {
+        Err(e) => format!("ERROR {}", e.description.replace('\n', " ")),
+        Ok(st) => {
+            let mut s = format!("OPENS len={}", st.len());
+            for i in 1..=24u64 {
+                if let Ok(size) = st.value_size(i) {
+                    match st.value_as_bytes(i) {
+                        Ok(b) => s.push_str(&format!(" {}:{}:{:016x}", i, size, fnv_bytes(&b))),
+                        Err(_) => s.push_str(&format!(" {}:{}:err", i, size)),
+                    }
+                }
+            }
+            drop(st);
+            s
+        }
+    }
+}
+#[cfg(not(agdb_verif))]
+fn storage_open<D: StorageData>(_path: &str) -> String { "ERROR built without the verification hooks".to_string() }
+
+fn fnv_bytes(bs: &[u8]) -> u64 {
+    let mut h = 0xcbf29ce484222325u64;
+    for b in bs { h ^= *b as u64; h = h.wrapping_mul(0x100000001b3); }
+    h
+}
+
 fn one(path: &str, variant: &str, limit: usize) -> String {
     REPORTED.store(false, Ordering::SeqCst);
     ALLOC_LIMIT.store(limit, Ordering::SeqCst);
@@ -213,6 +243,9 @@ fn one(path: &str, variant: &str, limit: usize) -> String {
         "any_file" => open_and_read(|| DbAny::new_file(&p)),
         "any_mapped" => open_and_read(|| DbAny::new_mapped(&p)),
         "any_memory" => open_and_read(|| DbAny::new_memory(&p)),
+        "storage_file" => storage_open::<FileStorage>(&p),
+        "storage_mapped" => storage_open::<FileStorageMemoryMapped>(&p),
+        "storage_memory" => storage_open::<MemoryStorage>(&p),
         _ => "ERROR unknown variant".to_string(),
     }));
     unsafe { alarm(0); }
@@ -495,6 +528,13 @@ pub fn log_damage(seed: &[u8], wal: &Option<Vec<u8>>, r: &mut Rng) -> Vec<Mutati
     m("size=-16", rec(0, u64::MAX - 15, &[]));
     m("size=-24", rec(0, u64::MAX - 23, &[9; 8]));
     m("size=-17", rec(5, u64::MAX - 16, &[9; 8]));
+    // a size field that seeks back INTO the record: repair keeps going, records() then allocates the size
+    for k in [1u64, 7, 8, 9, 15] {
+        let mut w = rec(0, u64::MAX - k + 1, &[0; 24]);
+        m(&format!("size=-{}+zeros", k), w.clone());
+        w.extend(rec(3, 2, &[7, 7]));
+        m(&format!("size=-{}+record", k), w);
+    }
     m("pos=2^40-write", rec(1 << 40, 4, &[1, 2, 3, 4]));
     m("pos=2^40-truncate", rec(1 << 40, 0, &[]));
     m("pos=2^63-write", rec(1 << 63, 1, &[1]));
@@ -625,9 +665,14 @@ pub fn resolve_sites(done: &mut [Done]) {
             }
             out
         }).clone();
+        if d.out.class.starts_with("panic-") && d.out.detail.starts_with("/rustc/") {
+            // the panic is raised inside std (capacity overflow, ...): the site is the innermost agdb function
+            let kind = d.out.class.splitn(3, '-').nth(2).unwrap_or("").to_string();
+            d.out.class = format!("panic-{}-{}", slug(chain.first().map(|x| x.as_str()).unwrap_or("std")), kind);
+        }
         if d.out.class == "hang-?" {
             // where the job was when it was stopped: the outermost agdb function that is not a mere entry point
-            const ENTRY: [&str; 14] = ["DbImpl.new", "DbImpl.try_new", "DbImpl.try_new_with_storage", "DbImpl.with_data", "Storage.new", "Storage.with_data",
+            const ENTRY: [&str; 16] = ["VStorage.new", "VStorage.with_data", "DbImpl.new", "DbImpl.try_new", "DbImpl.try_new_with_storage", "DbImpl.with_data", "Storage.new", "Storage.with_data",
                 "DbImpl.exec", "DbImpl.transaction", "Transaction.exec", "FileStorage.new", "FileStorageMemoryMapped.new", "WriteAheadLog.new",
                 "AnyStorage.new", "DbImpl.try_new_any"];
             let site = chain.iter().rev().find(|f| !ENTRY.contains(&f.as_str()) && !f.contains("closure")).cloned().unwrap_or("unknown".to_string());
@@ -758,7 +803,31 @@ pub struct Report {
     pub imp: Vec<String>,
 }
 
-pub fn run(seed: u64, out: &str, thorough: bool, threads: usize, variants: &[String], corpus: &str, guided_per_seed: usize) -> Report {
+/// a storage (not a database) with a few records, a free region and a free index: built through the hook wrapper
+#[cfg(agdb_verif)]
+fn tiny_storage(dir: &str) -> Vec<u8> {
+    let path = format!("{}/tiny.agdb", dir);
+    rm(&path);
+    {
+        let mut st = agdb::verif::VStorage::<FileStorage>::new(&path).unwrap();
+        let a = st.insert_bytes(&[1, 2, 3, 4, 5, 6, 7, 8, 9, 10, 11, 12]).unwrap();
+        let _b = st.insert_bytes(&[0xaa; 40]).unwrap();
+        let _c = st.insert_bytes(&[]).unwrap();
+        let _d = st.insert_bytes(&[0x55; 17]).unwrap();
+        st.remove(a).unwrap();
+        std::mem::forget(st);
+    }
+    let d = std::fs::read(&path).unwrap();
+    rm(&path);
+    d
+}
+#[cfg(not(agdb_verif))]
+fn tiny_storage(_dir: &str) -> Vec<u8> { vec![] }
+
+const STORAGE_VARIANTS: [&str; 3] = ["storage_file", "storage_mapped", "storage_memory"];
+const MODEL_MAX_LEN: usize = 1200;
+
+pub fn run(seed: u64, out: &str, thorough: bool, threads: usize, variants: &[String], corpus: &str, guided_per_seed: usize, guards: &str) -> Report {
     let mut r = Rng::new(seed);
     let seeds = build_seeds(&format!("{}/seeds", out), &mut r, thorough);
     let mut jobs: Vec<Job> = vec![];
@@ -777,10 +846,29 @@ pub fn run(seed: u64, out: &str, thorough: bool, threads: usize, variants: &[Str
         }
         ms.extend(g);
         ms.extend(random_damage(data, wal, if thorough { 2000 } else { 60 }, &mut r));
-        if name == "small" || name == "pending-log" || (thorough && name != "big") { ms.extend(log_damage(data, wal, &mut r)); }
-        for m in ms { for v in variants { jobs.push(Job { seed: name.clone(), m: m.clone(), variant: v.clone() }); } }
+        if name == "small" || name == "empty" || name == "pending-log" || (thorough && name != "big") { ms.extend(log_damage(data, wal, &mut r)); }
+        for m in ms {
+            for v in variants { jobs.push(Job { seed: name.clone(), m: m.clone(), variant: v.clone() }); }
+            // the storage layer alone, for the model correspondence (small inputs: they travel as text)
+            if m.data.len() <= MODEL_MAX_LEN && m.wal.as_ref().map(|w| w.len()).unwrap_or(0) <= MODEL_MAX_LEN {
+                for v in STORAGE_VARIANTS { jobs.push(Job { seed: name.clone(), m: m.clone(), variant: v.to_string() }); }
+            }
+        }
     }
-    for m in random_files(if thorough { 20000 } else { 150 }, &mut r) { for v in variants { jobs.push(Job { seed: "random".into(), m: m.clone(), variant: v.clone() }); } }
+    // a plain storage with records, a free region and a free index: storage layer only
+    let tiny = tiny_storage(&format!("{}/seeds", out));
+    if !tiny.is_empty() {
+        let mut ms = truncations(&tiny, &None, 512, 0, &mut r);
+        ms.extend(guided(&tiny, &None));
+        ms.extend(random_damage(&tiny, &None, if thorough { 3000 } else { 200 }, &mut r));
+        ms.extend(log_damage(&tiny, &None, &mut r));
+        ms.push(Mutation { desc: "intact".into(), data: tiny.clone(), wal: None });
+        for m in ms { for v in STORAGE_VARIANTS { jobs.push(Job { seed: "tiny-storage".into(), m: m.clone(), variant: v.to_string() }); } }
+    }
+    for m in random_files(if thorough { 20000 } else { 150 }, &mut r) {
+        for v in variants { jobs.push(Job { seed: "random".into(), m: m.clone(), variant: v.clone() }); }
+        for v in STORAGE_VARIANTS { jobs.push(Job { seed: "random".into(), m: m.clone(), variant: v.to_string() }); }
+    }
     // regression corpus: every stored witness through every variant
     if let Ok(rd) = std::fs::read_dir(corpus) {
         let mut names: Vec<String> = rd.filter_map(|e| e.ok()).map(|e| e.file_name().to_string_lossy().to_string()).filter(|n| n.ends_with(".bin")).collect();
@@ -810,9 +898,18 @@ pub fn run(seed: u64, out: &str, thorough: bool, threads: usize, variants: &[Str
         // non-trivial: the damaged file still got past the storage layer in some variant (opened) or failed beyond the header
         if d.out.class == "opens" && d.seed != "random" && distinct.insert((d.seed.clone(), d.desc.clone())) { rep.nontrivial += 1; }
         // model correspondence input: storage layer outcome for data + log (hex), per variant kind
-        if d.data_len <= 4096 && d.variant != "any_file" && d.variant != "any_mapped" && d.variant != "any_memory" {
-            rep.cases.push(format!("open {} {} {}", d.variant, hex(&d.data), d.wal.as_ref().map(|w| hex(w)).unwrap_or("-".into())));
-            rep.imp.push(match d.out.class.as_str() { "opens" => "opens".to_string(), "error" => "error".to_string(), c => c.to_string() });
+        if let Some(be) = d.variant.strip_prefix("storage_") {
+            rep.cases.push(format!("open o {} {} {} {}", guards, be, hex(&d.data), d.wal.as_ref().map(|w| hex(w)).unwrap_or("-".into())));
+            rep.imp.push(match d.out.class.as_str() {
+                "opens" => d.out.detail.to_lowercase(),
+                "error" => "error".to_string(),
+                c if c.starts_with("panic-") => "panic".to_string(),
+                c if c.starts_with("alloc-StorageRecords.set_record") => "alloc-table".to_string(),
+                c if c.starts_with("alloc-") => "alloc-buffer".to_string(),
+                c if c.starts_with("hang") => "hang".to_string(),
+                c => c.to_string(),
+            });
+            *rep.stats.entry("model-cases".to_string()).or_insert(0) += 1;
         }
         if d.out.class != "opens" && d.out.class != "error" {
             let key = format!("{}", d.out.class);
